@@ -60,6 +60,8 @@ neighbor 127.0.0.3 {
 }
 """
 CONFIGS['two'] = dict(cfg=dict(hold=9), world_env={}, second=True)
+# local-as auto: ExaBGP takes its AS from the peer's OPEN, which it therefore reads before it sends its own
+CONFIGS['mirror'] = dict(cfg=dict(hold=9), world_env={}, mirror=True)
 
 
 def config_text(config_name, **over):
@@ -67,6 +69,8 @@ def config_text(config_name, **over):
     kw = dict(conf['cfg'])
     kw.update(over)
     text = edev.base_config(**kw)
+    if conf.get('mirror'):
+        text = text.replace('local-as 65001;', 'local-as auto;')
     if conf.get('second'):
         head, sep, tail = text.partition('neighbor 127.0.0.2 {')
         text = head + SECOND + sep + tail
@@ -81,6 +85,8 @@ class Env(edev.Env):
         super().__init__(w, **kw)
         self.config_name = config_name
         self.fed: dict[int, list] = {}  # socket index -> [(time, what)]
+        if CONFIGS[config_name].get('mirror'):
+            self.speaks_first = True
         if CONFIGS[config_name].get('second'):
             self.multi = True
             self.primary = '127.0.0.2'
@@ -345,10 +351,10 @@ def run(ctx: core.Ctx) -> None:
     if os.environ.get('C05_BOUND'):
         plan = [(c, int(os.environ['C05_BOUND'])) for c in CONFIGS]
     elif ctx.tier == 'quick':
-        plan = [('active', 2), ('attempts1', 1), ('gr', 1), ('passive', 1), ('hold0', 1), ('two', 1)]
+        plan = [('active', 2), ('attempts1', 1), ('gr', 1), ('passive', 1), ('hold0', 1), ('two', 1), ('mirror', 1)]
     else:
         # every configuration to 2 deviations first, then a third (reduced menu) on the active one
-        plan = [('active', 2), ('attempts1', 2), ('gr', 2), ('passive', 2), ('hold0', 2), ('hold0local', 1), ('two', 2), ('active', 3)]
+        plan = [('active', 2), ('attempts1', 2), ('gr', 2), ('passive', 2), ('hold0', 2), ('hold0local', 1), ('two', 2), ('mirror', 2), ('active', 3)]
     if os.environ.get('C05_ONLY'):
         plan = [(c, b) for c, b in plan if c in os.environ['C05_ONLY'].split(',')]
         ctx.cap(f'restricted to configurations {os.environ["C05_ONLY"]} by C05_ONLY')
